@@ -15,6 +15,7 @@ import (
 	"strings"
 	"sync"
 	"testing"
+	"time"
 
 	"github.com/tsenart/vegeta/v12/internal/zzverif/vh"
 	vegeta "github.com/tsenart/vegeta/v12/lib"
@@ -53,6 +54,7 @@ type c14Cli struct {
 	RatePerMS int
 	DurMS     int    // -duration
 	MaxBodyAs string // notation used for -max-body ("" = plain integer)
+	BodyPipe  bool   `json:",omitempty"` // the -body file is a named pipe (process substitution, /dev/stdin)
 }
 
 const wireBody = "0123456789"
@@ -246,7 +248,12 @@ func runC14Cli(c c14Cli) error {
 	}
 	if c.DefBody != nil {
 		bf := filepath.Join(dir, "defbody")
-		if err := os.WriteFile(bf, c.DefBody, 0o644); err != nil {
+		if c.BodyPipe {
+			var err error
+			if bf, err = slowPipe(dir, "defbody.pipe", c.DefBody, []int{len(c.DefBody) / 2}, time.Millisecond); err != nil {
+				return err
+			}
+		} else if err := os.WriteFile(bf, c.DefBody, 0o644); err != nil {
 			return err
 		}
 		args = append(args, "-body="+bf)
@@ -382,7 +389,7 @@ func trunc(b []byte) string {
 
 func TestC14Cli(t *testing.T) {
 	vh.ShrinkTime("5s")
-	vh.Check(t, 16, 300, func(t *rapid.T) {
+	vh.Check(t, 40, 300, func(t *rapid.T) {
 		c := c14Cli{Format: rapid.SampledFrom([]string{"http", "json"}).Draw(t, "format"), Lazy: rapid.Bool().Draw(t, "lazy"),
 			Name: rapid.SampledFrom([]string{"", "", "big-bang"}).Draw(t, "name"), Hits: rapid.IntRange(4, 30).Draw(t, "hits"),
 			Chunked: rapid.IntRange(0, 3).Draw(t, "chunked") == 0, MaxBody: rapid.SampledFrom([]int64{-1, -1, 0, 1, 9, 10, 11, 4096}).Draw(t, "maxbody"),
@@ -415,6 +422,7 @@ func TestC14Cli(t *testing.T) {
 		}
 		if rapid.Bool().Draw(t, "defbody") {
 			c.DefBody = []byte("default body")
+			c.BodyPipe = rapid.Bool().Draw(t, "bodypipe")
 		}
 		nt := rapid.IntRange(1, 5).Draw(t, "ntargets")
 		if c.RateN > 0 {
